@@ -7,6 +7,7 @@ package ed
 import (
 	"crypto/sha512"
 	"math/big"
+	"sync"
 )
 
 var (
@@ -240,12 +241,14 @@ func Torsion() []*Point {
 	return torsion
 }
 
-var torsion []*Point
+var (
+	torsion     []*Point
+	torsionSync sync.Once
+)
 
-func torsionOnce() {
-	if torsion != nil {
-		return
-	}
+func torsionOnce() { torsionSync.Do(torsionBuild) }
+
+func torsionBuild() {
 	for yv := int64(2); ; yv++ {
 		y := big.NewInt(yv)
 		x, ok := recoverX(y)
